@@ -332,15 +332,15 @@ func nativeTyped(tn string, opn int, a, b int64) (res int64, isBool bool, panick
 }
 
 type sweepMismatch struct {
-	Kind     string `json:"kind"`
-	Type     string `json:"type"`
-	Op       string `json:"op"`
-	Position string `json:"position"`
-	Func     string `json:"func"`
-	Src      string `json:"src"`
+	Kind     string  `json:"kind"`
+	Type     string  `json:"type"`
+	Op       string  `json:"op"`
+	Position string  `json:"position"`
+	Func     string  `json:"func"`
+	Src      string  `json:"src"`
 	Args     []int64 `json:"args"`
-	Expected string `json:"expected"`
-	Got      string `json:"got"`
+	Expected string  `json:"expected"`
+	Got      string  `json:"got"`
 }
 
 func descr(v g.Value, vm *g.VM) string {
